@@ -27,6 +27,7 @@ pub trait SimpleCase: Clone + Hash + std::fmt::Debug + Send + Sync {
 pub struct SimpleResult {
   pub cases: u64, pub nontrivial: HashSet<u64>, pub samples: Vec<serde_json::Value>, pub dist: BTreeMap<String, u64>,
   pub failures: Vec<serde_json::Value>, pub impl_panics: u64, pub oracle_failures: u64, pub corr_failures: u64, pub model_oracle_failures: u64, pub driver_lines: u64,
+  pub known_counts: BTreeMap<String, u64>, pub unknown_oracle_failures: u64,
 }
 
 fn h<C: Hash>(c: &C) -> u64 { let mut s = std::collections::hash_map::DefaultHasher::new(); c.hash(&mut s); s.finish() }
@@ -60,14 +61,20 @@ fn worker<C: SimpleCase>(gen: &(dyn Fn(&mut Rng, bool) -> C + Sync), cfg: &RunCf
     let fi = case.oracle(&oi);
     for f in &fi {
       r.oracle_failures += 1;
+      if let Some(k) = case.known(f) {
+        *r.known_counts.entry(k.clone()).or_default() += 1;
+        if r.failures.iter().filter(|x| x["known"] == k.as_str()).count() < 2 { r.failures.push(json!({ "kind": "oracle", "clause": f.clause, "detail": f.detail, "known": k, "case": case.describe() })); }
+        continue;
+      }
+      r.unknown_oracle_failures += 1;
       let (c2, f2) = if shrunk.len() < cfg.max_shrink && shrunk.insert(format!("oracle:{}", f.clause)) {
         let clause = f.clause.clone();
-        let c2 = shrink_with(&case, &mut |c| c.oracle(&c.run_impl()).iter().any(|x| x.clause == clause));
-        let f2 = c2.oracle(&c2.run_impl()).into_iter().find(|x| x.clause == clause).unwrap_or(f.clone());
+        let c2 = shrink_with(&case, &mut |c| c.oracle(&c.run_impl()).iter().any(|x| x.clause == clause && c.known(x).is_none()));
+        let f2 = c2.oracle(&c2.run_impl()).into_iter().find(|x| x.clause == clause && c2.known(x).is_none()).unwrap_or(f.clone());
         (c2, f2)
       } else { (case.clone(), f.clone()) };
-      if r.failures.iter().filter(|x| x["kind"] == "oracle" && x["clause"] == f2.clause.as_str()).count() < 5 {
-        r.failures.push(json!({ "kind": "oracle", "clause": f2.clause, "detail": f2.detail, "known": c2.known(&f2), "case": c2.describe() }));
+      if r.failures.iter().filter(|x| x["kind"] == "oracle" && x["known"].is_null() && x["clause"] == f2.clause.as_str()).count() < 5 {
+        r.failures.push(json!({ "kind": "oracle", "clause": f2.clause, "detail": f2.detail, "known": null, "case": c2.describe() }));
       }
     }
     if fi.is_empty() { for f in case.oracle(&om) {
@@ -102,7 +109,8 @@ pub fn run_simple<C: SimpleCase>(id: &str, gen: &(dyn Fn(&mut Rng, bool) -> C + 
     if t.samples.len() < 3 { t.samples.extend(r.samples.into_iter().take(3 - t.samples.len())); }
     t.failures.extend(r.failures); t.impl_panics += r.impl_panics; t.oracle_failures += r.oracle_failures; t.corr_failures += r.corr_failures;
     t.model_oracle_failures += r.model_oracle_failures; t.driver_lines += r.driver_lines;
+    t.unknown_oracle_failures += r.unknown_oracle_failures; for (k, v) in r.known_counts { *t.known_counts.entry(k).or_default() += v; }
   }
   json!({ "property": id, "cases": t.cases, "distinct_nontrivial": t.nontrivial.len(), "samples": t.samples, "distribution": t.dist, "impl_panics": t.impl_panics,
-    "oracle_failures": t.oracle_failures, "corr_failures": t.corr_failures, "model_oracle_failures": t.model_oracle_failures, "driver_lines": t.driver_lines, "failures": t.failures })
+    "oracle_failures": t.oracle_failures, "unknown_oracle_failures": t.unknown_oracle_failures, "known_counts": t.known_counts, "corr_failures": t.corr_failures, "model_oracle_failures": t.model_oracle_failures, "driver_lines": t.driver_lines, "failures": t.failures })
 }
